@@ -156,9 +156,9 @@ META = {
     "C21": dict(text="Theorems: a successful redemption required block <= due block, right network, a proof valid for the redeemer, gas coin = the check's, gas price 1, check unused; it moves exactly value of coin issuer->redeemer and the fee from the issuer; the used set only grows; a check identity redeemed once is rejected forever after (any redeemer, any history, both modes). " + LM + "Checks are issued with real keys; forged, foreign, expired, wrong-network, replayed variants.",
                 note=LN + "The code accepts the due block itself (DueBlock = last block in which the check can be used); the theorem states <=. ECDSA/Keccak trusted.",
                 technique="Coq proof (monotone used-set invariant over histories) + differential correspondence on the real node + double-redemption monitor"),
-    "C22": dict(text="Theorems: every creation uses id = counter + 1 and sets the counter; along any history ids stay <= counter and the counter never decreases (ids never reused); create requires an unused ticker and makes the sender owner; recreate / edit owner / mint only by the ticker owner; recreate versions the old coin (max+1 mod 2^16) and gives the new one a fresh id and version 0; mint only on the active mintable coin within max supply. " + LM + "Registry monitors on node exports (unique active tickers, unique ids, counter).",
-                note=LN + "Ticker uniqueness over histories is checked by the monitor and by the model differential, not yet proved as an invariant; the uint16 version wrap after 65535 recreations is stated in the theorem (mod 2^16). Pool-token creation (CreateSwapPool) is not in this model.",
-                technique="Coq proof (per-type specifications, id invariant over histories) + differential correspondence on the real node + registry monitors"),
+    "C22": dict(text="Theorems: every creation uses id = counter + 1 and sets the counter; along any history ids stay <= counter and the counter never decreases (ids never reused); create requires an unused ticker and makes the sender owner; recreate / edit owner / mint only by the ticker owner; recreate versions the old coin (max+1 mod 2^16) and gives the new one a fresh id and version 0; mint only on the active mintable coin within max supply; ACTIVE TICKERS ARE UNIQUE along every history in which no recreation wraps a ticker's uint16 version counter (C22_active_tickers_unique: distinct ids, at most one version-0 coin per ticker, invariant by induction over operations), and the statement is refuted at the wrap (C22_unique_refuted_at_version_wrap; reproduced on the node from a genesis with an archived version 65535: KNOWN FINDING c22-version-wrap). " + LM + "Registry monitors on node exports (unique active tickers, unique ids, counter).",
+                note=LN + "Pool-token creation (CreateSwapPool) is not in this model.",
+                technique="Coq proof (per-type specifications, id and ticker-uniqueness invariants over histories, refutation witness at the version wrap) + differential correspondence on the real node + registry monitors"),
     "C26": dict(text="REFUTED for the code, proved: a transaction failing inside Run is charged the failure fee, keeps its nonce, and is charged again on re-delivery (C26_refuted, witness evaluated in Coq; reproduced on the node: KNOWN FINDING c26-failed-redelivery). Proved partial results: after a successful delivery every re-delivery is rejected with the state untouched; gate rejections never charge; one failing delivery costs at most the failure fee and at most the balance. " + LM + "The harness re-delivers earlier bytes (accepted and failed) and watches the payer.",
                 note=LN + "Repair would need replay protection keyed by tx hash (new consensus state); C03 forbids advancing the nonce on failure: recorded as known finding, not patched.",
                 technique="Coq proof (refutation witness + partial theorems) + differential correspondence on the real node + re-delivery monitor"),
